@@ -37,7 +37,7 @@ func init() {
 	register(&Prop{
 		ID:         "C09",
 		Title:      "The expression front end is total and strict",
-		Decided:    "absence of run-time faults, progress, and the parser's acceptance condition, over every function of interpreter and interpreter/language reachable from Language.Match/Update: (R1) every single-result type assertion is dominated by facts that establish the asserted dynamic type (type-tag tests, matchTypes, same-type classes, type switches, earlier comma-ok, facts established at all call sites, constant-specialised callee results); (R2) every slice/string index and slice expression is bounded: range/count-down loop indices, constant indices under an established length, two-sided guards – three sites rest on named assumptions; (R3) nil discipline: every nil result of a parse function is accompanied by a recorded error, both entry points either assign the parsed expression or record an error on every path, and Match/Update test the parser's errors before evaluating; (R4) every loop either iterates over a finite container / counts, or consumes input on every cycle; (R5) every recursive cycle contains a progressing edge (a token consumed before the call, or an argument that is a strict sub-term of a parameter, or a visited-set guard); (R6) strictness: the whole input must be one sentence – a second sentence records an error; (R7) an evaluation error object always becomes an error return of Match/Update; (R9) a malformed operand is only noticed when it is evaluated: every node evaluator evaluates all its operands, and every member of a list operand, before it returns a non-error result (= C16.R8); (R8) wherever the parser builds an identifier node from the current token by a direct call (operands of BETWEEN, path members) the token kind has just been checked (expectPeek(IDENT) or an equivalent test) – otherwise an operator, a parenthesis or the end of input is taken for a name and a non-sentence is evaluated; and the lexer produces the end-of-input token only under a test of its position against the input length, so a NUL byte inside the expression does not cut it short; (R10) the lexer's whitespace skipper is evaluated for each of the 256 byte values: it must skip space, tab, CR and LF and nothing else – any other byte it swallows (vertical tab, form feed, 0x85, 0xA0) is an unknown character accepted inside an expression; a skipper that calls out (unicode.IsSpace) cannot be evaluated and is reported; (R11) SET stores a copy of its operand (= C07.R11): no self-containing document, serialisation terminates; (R12) the section parser of update clauses returns a list only on paths where the next token was tested to be EOF; (R13) error objects propagate to the top of the evaluation (= C16.R10).",
+		Decided:    "absence of run-time faults, progress, and the parser's acceptance condition, over every function of interpreter and interpreter/language reachable from Language.Match/Update: (R1) every single-result type assertion is dominated by facts that establish the asserted dynamic type (type-tag tests, matchTypes, same-type classes, type switches, earlier comma-ok, facts established at all call sites, constant-specialised callee results); (R2) every slice/string index and slice expression is bounded: range/count-down loop indices, constant indices under an established length, two-sided guards – three sites rest on named assumptions; (R3) nil discipline: every nil result of a parse function is accompanied by a recorded error, both entry points either assign the parsed expression or record an error on every path, and Match/Update test the parser's errors before evaluating; (R4) every loop either iterates over a finite container / counts, or consumes input on every cycle; (R5) every recursive cycle contains a progressing edge (a token consumed before the call, or an argument that is a strict sub-term of a parameter, or a visited-set guard); (R6) strictness: the whole input must be one sentence – a second sentence records an error; (R7) an evaluation error object always becomes an error return of Match/Update; (R9) a malformed operand is only noticed when it is evaluated: every node evaluator evaluates all its operands, and every member of a list operand, before it returns a non-error result (= C16.R8); (R8) wherever the parser builds an identifier node from the current token by a direct call (operands of BETWEEN, path members) the token kind has just been checked (expectPeek(IDENT) or an equivalent test) – otherwise an operator, a parenthesis or the end of input is taken for a name and a non-sentence is evaluated; and the lexer produces the end-of-input token only under a test of its position against the input length, so a NUL byte inside the expression does not cut it short; (R10) the lexer's whitespace skipper is evaluated for each of the 256 byte values: it must skip space, tab, CR and LF and nothing else – any other byte it swallows (vertical tab, form feed, 0x85, 0xA0) is an unknown character accepted inside an expression; a skipper that calls out (unicode.IsSpace) cannot be evaluated and is reported; (R11) SET stores a copy of its operand (= C07.R11): no self-containing document, serialisation terminates; (R12) the section parser of update clauses returns a list only on paths where the next token was tested to be EOF; (R13) error objects propagate to the top of the evaluation (= C16.R10); (R14) methods of the list type invoke methods on their elements only where the element is known to be non-nil.",
 		NotDecided: "that every ungrammatical string is rejected by the inner productions (R3/R6 decide the top-level acceptance condition and 'nil implies error'); stack depth for deeply nested but finite inputs; arithmetic overflow in list indexes converted from float64.",
 		Assumes:    []string{"objects and AST nodes are finite acyclic trees built from finite inputs (structural-descent recursion terminates)", "Lexer.readPosition/position are only ever increased from zero (verified: the only stores are in readChar)"},
 		Rules: []RuleDef{
@@ -54,6 +54,7 @@ func init() {
 			{ID: "R11", Desc: "SET stores a copy of whatever its right-hand side evaluates to (= C07.R11): a document never ends up containing itself, so serialising the result terminates", Run: aliasRule("R11", c07R11, nil)},
 			{ID: "R12", Desc: "an update clause section returns its actions only after the next token was tested to be the end of the input (T-DOM): a statement nested in a group is not a sentence", Run: c09R12},
 			{ID: "R13", Desc: "a rejected expression surfaces as an error: error objects produced during evaluation reach the top (= C16.R10)", Run: aliasRule("R13", c16R10, nil)},
+			{ID: "R14", Desc: "list elements may be nil between a REMOVE and the compaction: every method of the list type invokes methods on its elements only under a nil test (T-GUARD)", Run: c09R14},
 		},
 	})
 }
@@ -1800,5 +1801,90 @@ func c09R12(e *Engine) {
 	}
 	if n == 0 {
 		e.undecided("R12", "lang:section-parser", "-", "the parser of update clause sections was not found")
+	}
+}
+
+// c09R14: removed list elements are nil until the list is compacted (List.Remove stores nil into the slot, compaction
+// happens once after all actions). Every method of that list type that invokes a method on an element of its Value does
+// so only where the element is known to be non-nil: serialising, printing or copying a list with a pending removal
+// (`REMOVE l[0] SET c = l`) would otherwise be a nil dereference – a runtime fault, not an error.
+func c09R14(e *Engine) {
+	n := 0
+	for _, tname := range []string{"List"} {
+		valF := e.field("lang", tname, "Value")
+		if valF == nil {
+			continue
+		}
+		// can an element be nil at all?
+		mayBeNil := false
+		for _, fn := range e.funcs("lang") {
+			instrs(fn, func(in ssa.Instruction) {
+				st, ok := in.(*ssa.Store)
+				if !ok || !isNilConst(st.Val) {
+					return
+				}
+				if ia, isIA := st.Addr.(*ssa.IndexAddr); isIA {
+					if f, _ := loadedField(ia.X); f == valF {
+						mayBeNil = true
+					}
+				}
+			})
+		}
+		if !mayBeNil {
+			e.ob("R14", "lang."+tname+":elements-never-nil", "-", Pass, false, "no function stores nil into an element of %s.Value", tname)
+			continue
+		}
+		for _, fn := range sortedFns(e, fnSet(e.funcs("lang"))) {
+			if fn.Signature.Recv() == nil {
+				continue
+			}
+			if nt := namedOf(fn.Signature.Recv().Type()); nt == nil || nt.Obj().Name() != tname {
+				continue
+			}
+			instrs(fn, func(in ssa.Instruction) {
+				c, ok := in.(*ssa.Call)
+				if !ok || !c.Call.IsInvoke() {
+					return
+				}
+				// the receiver of the invoke is an element of this list's Value
+				el := strip(c.Call.Value)
+				isElem := false
+				switch x := el.(type) {
+				case *ssa.UnOp:
+					if ia, isIA := x.X.(*ssa.IndexAddr); isIA {
+						if f, _ := loadedField(ia.X); f == valF {
+							isElem = true
+						}
+					}
+				case *ssa.Extract:
+					if nx, isNext := x.Tuple.(*ssa.Next); isNext {
+						if rg, isRg := nx.Iter.(*ssa.Range); isRg {
+							if f, _ := loadedField(rg.X); f == valF {
+								isElem = true
+							}
+						}
+					}
+				}
+				if !isElem {
+					return
+				}
+				n++
+				guarded := false
+				for _, cd := range condsAt(c.Block()) {
+					if v, nonNilOnTrue, isNil := nilTest(cd.V); isNil && strip(v) == el && cd.Val == nonNilOnTrue {
+						guarded = true
+					}
+				}
+				construct := fmt.Sprintf("%s:element.%s()", e.fname(fn), c.Call.Method.Name())
+				if guarded {
+					e.pass("R14", construct, e.ipos(in), "the element is known to be non-nil where its method is invoked")
+				} else {
+					e.fail("R14", construct, e.ipos(in), "a method is invoked on an element of %s.Value without a nil test: elements removed earlier in the same update are nil until the list is compacted, so serialising or printing the list (SET c = l after REMOVE l[0]) dereferences nil – a runtime fault instead of a result", tname)
+				}
+			})
+		}
+	}
+	if n == 0 {
+		e.undecided("R14", "lang.List:element-invokes", "-", "no method invocation on list elements found")
 	}
 }
